@@ -210,3 +210,46 @@ package notify
 //@   loop 1 invariant forall name string :: (name in rs) ==> typeis(pipe(rs, name)[2], *TimeActiveStage) && typeis(pipe(rs, name)[3], *TimeMuteStage)
 //@   loop 1 invariant forall name string :: (name in rs) ==> !typeis(pipe(rs, name)[5], *MuteStage) && !typeis(pipe(rs, name)[5], *TimeMuteStage) && !typeis(pipe(rs, name)[5], *TimeActiveStage)
 //@   noeffect InitializeFor
+
+// ---- C04: what the decision function is given. partitionAlertsByState splits the batch by the alerts' status at
+// the time of the call (named resolvedNow(a): one reading per alert) and hashes them with the stage's hash function
+// (hashOf(a)); DedupStage.Exec hands needsUpdate exactly the log entry found for this group and receiver (none if
+// the log has none), those two sets, the repeat interval from the context and the flush instant carried in the
+// context - the stage's own clock only when the context carries none - and passes the batch on exactly when
+// needsUpdate said to notify.
+//@ uf hashOf(*alert.Alert) uint64
+//@ uf resolvedNow(*alert.Alert) bool
+//@ func partitionAlertsByState
+//@   props C04 C05
+//@   nosafe
+//@   assumes forall i int :: 0 <= i && i < len(alerts) ==> alerts[i] != nil
+//@   after call dynamic:param:hashFn assume res0 == hashOf(arg0)
+//@   after call Alert).Resolved assume res0 == resolvedNow(alerts[rangeindex1 + 1])
+//@   at call dynamic:param:hashFn assert [hash-each-alert] arg0 == alerts[rangeindex1 + 1]
+//@   ensures [firing-hashes] forall i int :: 0 <= i && i < len(alerts) && !resolvedNow(alerts[i]) ==> hashOf(alerts[i]) in result2
+//@   ensures [resolved-hashes] forall i int :: 0 <= i && i < len(alerts) && resolvedNow(alerts[i]) ==> hashOf(alerts[i]) in result3
+//@   ensures [only-firing] forall h uint64 :: (h in result2) ==> (exists k int :: 0 <= k && k < len(alerts) && !resolvedNow(alerts[k]) && hashOf(alerts[k]) == h)
+//@   ensures [only-resolved] forall h uint64 :: (h in result3) ==> (exists k int :: 0 <= k && k < len(alerts) && resolvedNow(alerts[k]) && hashOf(alerts[k]) == h)
+//@   ensures [lists-agree-with-sets] len(result0) + len(result1) == len(alerts) && result2 != nil && result3 != nil
+//@   loop 1 invariant rangeindex < len(alerts) && fresh(firingSet) && fresh(resolvedSet) && firingSet != resolvedSet && len(firing) + len(resolved) == rangeindex + 1 && fresh(firing) && fresh(resolved)
+//@   loop 1 invariant forall i int :: 0 <= i && i <= rangeindex && !resolvedNow(alerts[i]) ==> hashOf(alerts[i]) in firingSet
+//@   loop 1 invariant forall i int :: 0 <= i && i <= rangeindex && resolvedNow(alerts[i]) ==> hashOf(alerts[i]) in resolvedSet
+//@   loop 1 invariant forall h uint64 :: (h in firingSet) ==> (exists k int :: 0 <= k && k <= rangeindex && !resolvedNow(alerts[k]) && hashOf(alerts[k]) == h)
+//@   loop 1 invariant forall h uint64 :: (h in resolvedSet) ==> (exists k int :: 0 <= k && k <= rangeindex && resolvedNow(alerts[k]) && hashOf(alerts[k]) == h)
+//@   noeffect dynamic:param:hashFn Alert).Resolved
+//@   assigns nothing
+//@ func (*DedupStage).Exec
+//@   props C04
+//@   nosafe
+//@   requires n != nil && n.rs != nil
+//@   opaque notify.GroupKey notify.RepeatInterval notify.Now notify.With nflog.Q nflog.NewStore
+//@   noeffect notify.GroupKey notify.RepeatInterval notify.Now notify.With nflog.Q nflog.NewStore NotificationLog).Query dynamic:field:now Tracer).Start
+//@   at call needsUpdate assert [entry-of-this-group-and-receiver] arg1 == (len(ret("NotificationLog).Query")) == 1 ? ret("NotificationLog).Query")[0] : nil) && len(ret("NotificationLog).Query")) <= 1
+//@   at call needsUpdate assert [sets-of-this-batch] arg2 == ret2("partitionAlertsByState") && arg3 == ret3("partitionAlertsByState")
+//@   at call needsUpdate assert [repeat-from-context] arg4 == ret("notify.RepeatInterval") && ret1("notify.RepeatInterval")
+//@   at call needsUpdate assert [flush-instant-from-context] arg5 == ((called("notify.Now") && ret1("notify.Now")) ? ret("notify.Now") : ret("dynamic:field:now"))
+//@   at call partitionAlertsByState assert [whole-batch] arg0 == alerts && arg1 == n.hash
+//@   at call nflog.QReceiver assert [this-receiver] arg0 == n.recv
+//@   at call nflog.QGroupKey assert [this-group] arg0 == ret("notify.GroupKey")
+//@   ensures [passes-batch-iff-told-to-notify] called("needsUpdate") ==> result2 == nil && (ret("needsUpdate") != ReasonDoNotNotify ? result1 == alerts : result1 == nil)
+//@   ensures [no-decision-no-notification] !called("needsUpdate") ==> result1 == nil && result2 != nil
